@@ -9,4 +9,7 @@ for P in "$@"; do
   rc=$?
   echo "== $P rc=$rc: $(echo "$out" | grep -E 'VIOLATION|HARNESS' | head -2 | tr '\n' ' ') $(echo "$out" | grep -E 'oracle=' | head -1)"
 done
-git -C /repo checkout -- . 
+git -C /repo checkout -- .
+# leave binaries of the unpatched tree behind
+(cd /verif/sim && CARGO_NET_OFFLINE=true cargo build --release --offline -q; cd /verif/sim-sr && CARGO_NET_OFFLINE=true cargo build --release --offline -q) >/dev/null 2>&1
+
